@@ -182,12 +182,259 @@ class TracerVariable(Contract):
         return [('raises only ValueError, only when a leading and a trailing record marker disagree (raised %s)' % exc, And(exc == 'ValueError', differ))]
 
 
+class WriterRecords(Contract):
+    """ncf2bpch(ncffile, outpath) for a bpch-convention file with TWO tracer variables of different layer counts, different
+    scale factors, different categories / tracer ids / nested-grid starts, an ARBITRARY number of time blocks and arbitrary sizes
+    and values: the records handed to the output file are
+        record 0            the general header (markers 40 / 80, file type, title)
+        record 1 + t        one time block per element of tau0/tau1, in order, holding for EACH variable (in file order)
+                            its own header (markers 36 / 168, model name / resolution / polar flags of the file, category,
+                            tracer id, base unit, reserved text, tau0[t], tau1[t], dim = reversed shape + STARTI/J/K + 1,
+                            skip = 4 x cell count + 8), data markers 4 x cell count and data = values[t] / that variable's OWN
+                            scale (values[t] when the file is not scaled)
+    and nothing else is written (record count = 1 + number of time blocks)."""
+    prop = 'C18'
+    target = BP + '::ncf2bpch'
+    max_paths = 60
+
+    def __init__(self, noscale):
+        self.noscale = noscale
+        self.name = 'writer records[%s]' % ('no scaling' if noscale else 'scaled')
+
+    KEYS = ('IJ-AVG-$_NOx', 'BXHGHT-$_BXHEIGHT')
+
+    def inputs(self, ctx, I):
+        T, J, K = (ctx.fresh(n) for n in ('ntimes', 'nlat', 'nlon'))
+        L = [ctx.fresh('nlays_a'), ctx.fresh('nlays_b')]
+        self.T, self.J, self.K, self.L = T, J, K, L
+        self.scale = [ctx.fresh('scale_a', 'Real'), ctx.fresh('scale_b', 'Real')]
+        self.tid = [ctx.fresh('tracerid_a'), ctx.fresh('tracerid_b')]
+        self.start = [[ctx.fresh('start%s_%s' % (x, k)) for x in 'ijk'] for k in 'ab']
+        self.cat = ['IJ-AVG-$', 'BXHGHT-$']
+        self.unit = [AbsStr(ctx.fresh('base_unit_a')), AbsStr(ctx.fresh('base_unit_b'))]
+        self.resv = [AbsStr(ctx.fresh('reserved_a')), AbsStr(ctx.fresh('reserved_b'))]
+        self.vals, variables = [], {}
+        for n, key in enumerate(self.KEYS):
+            v = sym_array('vals_%d' % n, (T, L[n], J, K), 'f', attrs=dict(
+                tracerid=self.tid[n], category=self.cat[n], base_units=self.unit[n], reserved=self.resv[n], scale=self.scale[n],
+                STARTI=self.start[n][0], STARTJ=self.start[n][1], STARTK=self.start[n][2], units='ppbv'))
+            self.vals.append(v)
+            variables[key] = v
+        self.tau0, self.tau1 = sym_array('tau0', (T,), 'f'), sym_array('tau1', (T,), 'f')
+        variables['tau0'], variables['tau1'] = self.tau0, self.tau1
+        variables['time'] = sym_array('time', (T,), 'f', attrs=dict(units='hours since 1985-01-01 00:00:00 UTC'))
+        self.modelres = sym_array('modelres', (2,), 'f')
+        self.halfpolar, self.center180 = ctx.fresh('halfpolar'), ctx.fresh('center180')
+        self.modelname, self.ftype, self.toptitle = 'GEOS5_47L', 'CTM bin 02', 'GEOS-CHEM binary punch file v. 2.0'
+        f = pnc_file(I, variables=variables,
+                     dimensions={'time': dim_obj(I, 'time', T), 'layer': dim_obj(I, 'layer', L[0]), 'latitude': dim_obj(I, 'latitude', J), 'longitude': dim_obj(I, 'longitude', K)},
+                     attrs=dict(modelname=self.modelname, modelres=self.modelres, halfpolar=self.halfpolar, center180=self.center180,
+                                ftype=self.ftype, toptitle=self.toptitle, noscale=self.noscale))
+        return dict(ncffile=f, outpath='/out/x.bpch', verbose=0)
+
+    # ---- the loop over the time blocks ---------------------------------------------------------------------------------
+    def time_havoc(self, env):
+        """everything the loop may write: every field of the record being assembled (`time_data`, written through the aliases
+        tdv / header / data), the file log and the record count"""
+        I = env.interp
+        td = env['time_data']
+        for path, leaf in td.leaves():
+            if hasattr(leaf, 'havoc'):
+                leaf.havoc(I)
+            else:
+                leaf.value = AbsStr(I.ctx.fresh('text_' + '_'.join(path)))
+        g = self._file(I)
+        for lg in g['logs'].values():
+            lg.havoc(I)
+        g['nrec'] = I.ctx.fresh('nrec')
+
+    def time_inv(self, env):
+        from pyvc.recarr import intern_str
+        I = env.interp
+        g = self._file(I)
+        td = env['time_data']
+        ti = env.it
+        from pyvc.recarr import log_for
+        for path, leaf in td.leaves():
+            log_for(I, g, getattr(td, 'rtag', id(td.dt)), path, leaf)      # (the part of the file not written yet: arbitrary)
+        r = z3.Int('rblock')
+        out = [('record count = 1 + blocks written', eq(g['nrec'], add(ti, 1))), ('index in range', And(ge(ti, 0), le(ti, self.T)))]
+        G = lambda nm: self._log(g, (nm,)).get((0,))
+        out.append(('general header stays', And(eq(G('SPAD1'), 40), eq(G('EPAD1'), 40), eq(G('SPAD2'), 80), eq(G('EPAD2'), 80),
+                                                eq(G('ftype'), intern_str(I, self.ftype)), eq(G('toptitle'), intern_str(I, self.toptitle)))))
+        # the constant part of the record under assembly (set before the loop, written with every block)
+        for n, key in enumerate(self.KEYS):
+            hd = td.fields[key].fields['header']
+            val = lambda nm, *idx: (hd.fields[nm].get((0,) + tuple(idx)) if hasattr(hd.fields[nm], 'get') else hd.fields[nm].key(I))
+            out.append(('%s: constant header part of the record under assembly' % key,
+                        And(eq(val('SPAD1'), 36), eq(val('EPAD1'), 36), eq(val('SPAD2'), 168), eq(val('EPAD2'), 168), eq(val('modelname'), intern_str(I, self.modelname)),
+                            eq(val('modelres', 0), self.modelres.get((0,))), eq(val('modelres', 1), self.modelres.get((1,))), eq(val('halfpolar'), self.halfpolar), eq(val('center180'), self.center180))))
+        for nm, f in self.block_clauses(I, g, add(r, 1), r):
+            out.append((nm, z3.ForAll([r] + [z3.Int('w%d' % k) for k in range(3)], Implies(And(ge(r, 0), lt(r, ti)), f)) if is_sym(f) else f))
+        return out
+
+    @property
+    def loops(self):
+        return {'iter:enumerate(': LoopSpec(inv=self.time_inv, havoc=self.time_havoc)}
+
+    def requires(self, inp):
+        return And(ge(self.T, 1), ge(self.J, 1), ge(self.K, 1), ge(self.L[0], 1), ge(self.L[1], 1), ne(self.scale[0], 0), ne(self.scale[1], 0))
+
+    def small(self, inp):
+        return And(le(self.T, 2), le(self.J, 2), le(self.K, 2), le(self.L[0], 2), le(self.L[1], 2))
+
+    # ---- replay on the real writer ----------------------------------------------------------------------------------------
+    def concretize(self, model, inp):
+        from pyvc.verify import model_value
+        mv = lambda x: model_value(model, x)
+        return dict(noscale=self.noscale, T=mv(self.T), J=mv(self.J), K=mv(self.K), L=[mv(x) for x in self.L], scale=[str(mv(x)) for x in self.scale],
+                    tid=[mv(x) for x in self.tid], start=[[mv(x) for x in row] for row in self.start])
+
+    def concretize_without_model(self, inp):
+        return dict(noscale=self.noscale, T=3, J=2, K=3, L=[3, 1], scale=['0.5', '4'], tid=[1, 7], start=[[1, 1, 1], [3, 2, 4]])
+
+    def replay(self, c):
+        """a real in-memory file with two tracer variables handed to the real ncf2bpch; the bytes are read back with the
+        independent reference decoder (rtc/refcodec.py) and compared field by field"""
+        import numpy as np
+        import tempfile, shutil
+        P = import_real()
+        from PseudoNetCDF.geoschemfiles._bpch import ncf2bpch
+        from rtc import refcodec as R
+        clip = lambda x, lo, hi, d: int(x) if isinstance(x, int) and lo <= x <= hi else d
+        T, J, K = clip(c['T'], 1, 4, 3), clip(c['J'], 1, 3, 2), clip(c['K'], 1, 4, 3)
+        L = [clip(c['L'][0], 1, 3, 3), clip(c['L'][1], 1, 3, 1)]
+        scale = []
+        for k, sc in enumerate(c['scale']):
+            try:
+                v = float(fl(sc))
+            except Exception:
+                v = 0.0
+            scale.append(v if 1e-6 <= abs(v) <= 1e6 else (0.5, 4.0)[k])
+        if scale[0] == scale[1]:
+            scale[1] = scale[0] * 8
+        tid = [clip(c['tid'][0], 1, 10 ** 6, 1), clip(c['tid'][1], 1, 10 ** 6, 7)]
+        start = [[clip(x, 1, 500, d) for x, d in zip(row, dflt)] for row, dflt in zip(c['start'], ([1, 1, 1], [3, 2, 4]))]
+        f = P.PseudoNetCDFFile()
+        for k_, n_ in (('time', T), ('layer', L[0]), ('layer_b', L[1]), ('latitude', J), ('longitude', K)):
+            f.createDimension(k_, n_)
+        f.modelname, f.modelres, f.halfpolar, f.center180 = 'GEOS5_47L', np.array([5.0, 4.0], 'f'), 1, 1
+        f.ftype, f.toptitle, f.noscale = 'CTM bin 02', 'GEOS-CHEM binary punch file v. 2.0', bool(c['noscale'])
+        vals = []
+        cats, units = ['IJ-AVG-$', 'BXHGHT-$'], ['ppbv', 'm']
+        for n, key in enumerate(self.KEYS):
+            a = ((np.arange(T * L[n] * J * K, dtype='f').reshape(T, L[n], J, K) + 1 + 100 * n) / 8).astype('f')
+            v = f.createVariable(key, 'f', ('time', 'layer' if n == 0 else 'layer_b', 'latitude', 'longitude'), values=a)
+            v.tracerid, v.category, v.base_units, v.reserved, v.scale, v.units = tid[n], cats[n], units[n], 'res%d' % n, scale[n], 'x'
+            v.STARTI, v.STARTJ, v.STARTK = [x - 1 for x in start[n]]
+            vals.append(a)
+        tau0 = np.arange(T, dtype='d') * 24 + 100.
+        tau1 = tau0 + 24
+        f.createVariable('tau0', 'd', ('time',), values=tau0)
+        f.createVariable('tau1', 'd', ('time',), values=tau1)
+        d = tempfile.mkdtemp(prefix='verif_c18_')
+        bad = []
+        try:
+            out = ncf2bpch(f, os.path.join(d, 'o.bpch'))
+            out.close()
+            raw = open(os.path.join(d, 'o.bpch'), 'rb').read()
+            try:
+                blocks = R.bpch_decode(raw)
+            except Exception as e:
+                blocks = None
+                bad.append('the reference decoder rejects the file: %s %s' % (type(e).__name__, e))
+            if blocks is not None:
+                if len(blocks) != 2 * T:
+                    bad.append('%d data blocks, expected %d' % (len(blocks), 2 * T))
+                for t in range(T):
+                    for n in range(2):
+                        if 2 * t + n >= len(blocks):
+                            break
+                        b = blocks[2 * t + n]
+                        exp = vals[n][t] if c['noscale'] else vals[n][t] / np.float64(scale[n])
+                        if b['data'].shape != exp.shape or not np.allclose(b['data'], exp, rtol=1e-6):
+                            bad.append('block %d variable %d: data are not the values of this time block%s' % (t, n, '' if c['noscale'] else ' / the scale of this variable'))
+                        if (b['category'], b['tracer'], b['unit']) != (cats[n], tid[n], units[n]):
+                            bad.append('block %d variable %d: category / tracer id / unit %r' % (t, n, (b['category'], b['tracer'], b['unit'])))
+                        if (b['tau0'], b['tau1']) != (tau0[t], tau1[t]):
+                            bad.append('block %d variable %d: tau0 / tau1 %r' % (t, n, (b['tau0'], b['tau1'])))
+                        if list(b['start']) != start[n]:
+                            bad.append('block %d variable %d: start indices %r, expected %r' % (t, n, list(b['start']), start[n]))
+            return (not bad), dict(T=T, J=J, K=K, L=L, scale=scale, tracerid=tid, start=start, noscale=c['noscale'], failed=bad[:6])
+        finally:
+            shutil.rmtree(d, ignore_errors=True)
+
+    # ---- the records written so far, read from the engine's file log -------------------------------------------------
+    @staticmethod
+    def _file(I):
+        gs = [g for k, g in I.ctx.ghost.items() if isinstance(k, tuple) and k and k[0] == 'recfile']
+        return gs[0] if len(gs) == 1 else None
+
+    def _log(self, g, path):
+        # ('>i4,' is a one-field struct for numpy: the wrapper level 'f0' is not part of the published layout)
+        hits = [lg for (dtid, p), lg in g['logs'].items() if tuple(x for x in p if x != 'f0') == path]
+        return hits[0] if len(hits) == 1 else None
+
+    def block_clauses(self, I, g, r, t):
+        """clauses about record number r being the time block t (r, t symbolic or concrete)"""
+        from pyvc.recarr import intern_str
+        out = []
+        J, K = self.J, self.K
+
+        def fld(path, *idx):
+            lg = self._log(g, path)
+            if lg is None:
+                return None
+            return lg.get((r,) + tuple(idx))
+        for n, key in enumerate(self.KEYS):
+            L = self.L[n]
+            cells = mul(mul(L, J), K)
+            H = lambda name, *idx, key=key: fld((key, 'header', name), *idx)
+            exp_dim = [K, J, L] + [add(x, 1) for x in self.start[n]]
+            q = tuple(z3.Int('w%d' % k) for k in range(3))
+            rng = And(*[And(ge(i, 0), lt(i, m)) for i, m in zip(q, (L, J, K))])
+            raw = self.vals[n].buf.get((t,) + q)
+            want = raw if self.noscale else sym.truediv(raw, self.scale[n])
+            named = [
+                ('header markers 36 / 168', And(eq(H('SPAD1'), 36), eq(H('EPAD1'), 36), eq(H('SPAD2'), 168), eq(H('EPAD2'), 168))),
+                ('model name, resolution and polar flags of the file', And(eq(H('modelname'), intern_str(I, self.modelname)), eq(H('modelres', 0), self.modelres.get((0,))), eq(H('modelres', 1), self.modelres.get((1,))),
+                                                                       eq(H('halfpolar'), self.halfpolar), eq(H('center180'), self.center180))),
+                ('category, tracer id, base unit and reserved text of THIS variable', And(eq(H('category'), intern_str(I, self.cat[n])), eq(H('tracerid'), self.tid[n]),
+                                                                                      eq(H('unit'), self.unit[n].sid), eq(H('reserved'), self.resv[n].sid))),
+                ('tau0 / tau1 of this time block', And(eq(H('tau0'), self.tau0.get((t,))), eq(H('tau1'), self.tau1.get((t,))))),
+                ('dim = reversed shape + start indices + 1', And(*[eq(H('dim', k), exp_dim[k]) for k in range(6)])),
+                ('data markers = 4 x cell count, skip = markers + 8', And(eq(fld((key, 'SPAD1')), mul(cells, 4)), eq(fld((key, 'EPAD1')), mul(cells, 4)), eq(H('skip'), add(mul(cells, 4), 8)))),
+                ('data = values of this time block%s' % ('' if self.noscale else ' / the scale of THIS variable'), Implies(rng, eq(fld((key, 'data'), *q), want))),
+            ]
+            out += [('%s: %s' % (key, nm), f) for nm, f in named]
+        return out
+
+    def ensures(self, inp, res, I):
+        from pyvc.recarr import intern_str
+        g = self._file(I)
+        if g is None:
+            return [('records were written to exactly one file', False)]
+        needed = [(k, 'header', nm) for k in self.KEYS for nm in ('SPAD1', 'modelname', 'modelres', 'halfpolar', 'center180', 'EPAD1', 'SPAD2', 'category', 'tracerid', 'unit', 'tau0', 'tau1', 'reserved', 'dim', 'skip', 'EPAD2')]
+        needed += [(k, nm) for k in self.KEYS for nm in ('SPAD1', 'data', 'EPAD1')] + [(nm,) for nm in ('SPAD1', 'ftype', 'EPAD1', 'SPAD2', 'toptitle', 'EPAD2')]
+        if any(self._log(g, p) is None for p in needed):
+            return [('every field of the published layout is written', False)]
+        G = lambda nm: self._log(g, (nm,)).get((0,))
+        t = z3.Int('tblock')
+        out = [('record count = 1 + number of time blocks', eq(g['nrec'], add(self.T, 1))),
+               ('general header: markers 40 / 80, file type and title', And(eq(G('SPAD1'), 40), eq(G('EPAD1'), 40), eq(G('SPAD2'), 80), eq(G('EPAD2'), 80),
+                                                                         eq(G('ftype'), intern_str(I, self.ftype)), eq(G('toptitle'), intern_str(I, self.toptitle))))]
+        for nm, f in self.block_clauses(I, g, add(t, 1), t):
+            out.append((nm, Implies(And(ge(t, 0), lt(t, self.T)), f)))
+        return out
+
+
 def nparr_select(vals, i):
     from pyvc.nparr import _select
     return _select(list(vals), i)
 
 
 CONTRACTS = [TracerVariable(ns, it, nest) for ns, it, nest in ((False, True, False), (True, True, False), (False, False, False), (False, True, True))]
+CONTRACTS += [WriterRecords(False), WriterRecords(True)]
 
 
 def bounded(tier, seed):
@@ -304,14 +551,17 @@ def bounded_replay(p):
 
 META = dict(
     level='other',
-    technique='scaling law of the memory-mapped reader (_tracer_lookup.__missing__: tracer-table row = category offset + tracer id, value = raw x SCALE, unit from the same row, noscale -> raw) '
-              'proved by pyvc for records of any shape and an arbitrary tracer table; byte round trip, writer and second reader by bounded run-time contract with an independent bpch encoder/decoder',
-    text='Proved: for a record of ANY shape (time, layer, latitude, longitude), any tracer id, any category offset and an arbitrary tracer table (uninterpreted SCALE/UNIT/MOLWT/C per row), the variable served by '
+    technique='scaling law of the memory-mapped reader (_tracer_lookup.__missing__) and record contents of the writer (ncf2bpch, cut-point loop over an arbitrary number of time blocks, structured records modelled field-wise) '
+              'proved by pyvc; header walk of bpch1, byte image and second reader by bounded run-time contract with an independent bpch encoder/decoder',
+    text='Proved (reader): for a record of ANY shape (time, layer, latitude, longitude), any tracer id, any category offset and an arbitrary tracer table (uninterpreted SCALE/UNIT/MOLWT/C per row), the variable served by '
          'the bpch1 reader uses row (offset + tracer id) -- row (tracer id) when the category is not in diaginfo --, every element is raw x SCALE of that row (raw when noscale), unit / molecular weight / carbon count come from '
          'that same row, tracer id, category and base unit of the header are carried, nested-grid offsets are the header start indices minus one in (i, j, l) order, the memory map is not written and a record whose '
-         'markers disagree is rejected with ValueError.  Bounded: byte round trip without scaling, write/read through the reference decoder, agreement of both readers, on generated files.',
-    note='The header walk of bpch1.__init__ (numpy structured dtypes built from text, memmap strides), ncf2bpch and bpch2 are outside the modelled subset: bounded only.  The record (memmap[key]) is an abstract object with the '
-         'field interface the function uses (header[0][f7..f14], data[f0,f1,f2], data.dtype[f1].shape).',
-    assumptions=['record interface of numpy structured memmap modelled by an abstract object', 'float arithmetic treated as real arithmetic',
-                 'header walk / writer / bpch2: bounded only'],
-    explanation='mixed: proof obligations for the scaling law of the reader + bounded exploration of the byte-level round trips')
+         'markers disagree is rejected with ValueError.  Proved (writer): for a file with two tracer variables of different layer counts / scales / categories / tracer ids / grid windows, ANY number of time blocks and any sizes and values, '
+         'ncf2bpch hands to the output file exactly 1 + T records: the general header (markers 40/80, type, title) and, per time block in order, for EACH variable its header (markers 36/168, model fields of the file, its own category / '
+         'tracer id / unit / reserved text, tau0[t] / tau1[t], dim = reversed shape + start + 1, skip = 4 x cells + 8), data markers 4 x cells and data = values[t] / its OWN scale (values[t] when noscale).  '
+         'Bounded: byte round trip without scaling, write/read through the reference decoder, agreement of both readers, on generated files.',
+    note='The header walk of bpch1.__init__ (numpy structured dtypes built from text, memmap strides) and bpch2 are outside the modelled subset: bounded only.  The reader record (memmap[key]) is an abstract object with the '
+         'field interface the function uses.  The writer is proved up to the FIELD CONTENT of the records given to tofile(): byte order, packing and the byte image are not modelled (pyvc/recarr.py) and are covered by the bounded byte round trip.',
+    assumptions=['record interface of numpy structured memmap modelled by an abstract object (reader)', 'numpy structured zeros / field views / tofile modelled field-wise, byte image not modelled (writer)',
+                 'float arithmetic treated as real arithmetic (no float32 rounding of value / scale)', 'header walk / bpch2: bounded only'],
+    explanation='mixed: proof obligations for the scaling law of the reader and the record contents of the writer + bounded exploration of the byte-level round trips')
